@@ -29,7 +29,8 @@ GOALS = {
               'initial global time not 0', 'empty update',
               'two ports on one store, update dictionary reused',
               'port wired with an empty _path', 'emit_step greater than 1',
-              'list-valued variable, update echoes the view'],
+              'list-valued variable, update echoes the view',
+              'two ports reach one nested variable, update reused'],
     'thorough': ['deferral across a call boundary', 'truncated interval',
                  'quiet poll', 'two processes applied in one batch',
                  'a process runs in a worker',
@@ -37,7 +38,8 @@ GOALS = {
                  'initial global time not 0', 'empty update',
               'two ports on one store, update dictionary reused',
               'port wired with an empty _path', 'emit_step greater than 1',
-              'list-valued variable, update echoes the view'],
+              'list-valued variable, update echoes the view',
+              'two ports reach one nested variable, update reused'],
 }
 STUBS = sched_stubs = [
     'stub processes (pure): symbolic timestep per process or per poll, symbolic '
@@ -103,6 +105,8 @@ def jobs(tier):
                       empties=True))
         J.append(_cfg('twoports-N2', 2, 2, 3, 'const', 'none', tier,
                       twoports=True))
+        J.append(_cfg('twoports-nested-N2', 2, 2, 3, 'const', 'none', tier,
+                      twoports='nested'))
         J.append(_cfg('emptypath-N2', 2, 1, 3, 'const', 'none', tier,
                       emptypath=True))
         J.append(_cfg('lists-N2', 2, 1, 3, 'const', 'none', tier, lists=True,
@@ -147,6 +151,8 @@ def jobs(tier):
                       empties=True))
         J.append(_cfg('twoports-N2', 2, 3, 3, 'const', 'none', tier,
                       twoports=True))
+        J.append(_cfg('twoports-nested-N2', 2, 3, 3, 'const', 'none', tier,
+                      twoports='nested'))
 
         J.append(_cfg('g0-condfresh-N2', 2, 2, 3, 'const', 'fresh', tier, g0=3))
         J.append(_cfg('dyadic-N2', 2, 3, 3, 'const', 'none', tier,
@@ -258,11 +264,14 @@ def body(ctx, cfg):
             exp = 0
             for c in p.ncalls:
                 exp = exp + ite(sched.expected_end(c) <= T, c['d'], 0)
+                # what this call adds to the shared z (d, unless the
+                # configuration says otherwise)
+                ztot = ztot + ite(sched.expected_end(c) <= T,
+                                  c.get('dz', c['d']), 0)
             rows.append(EQ(run.xrow(row, n), exp))
-            ztot = ztot + exp
-        rows.append(EQ(row['s']['z'], ztot))
+        rows.append(EQ(run.zrow(row), ztot))
         ctx.observe('row_t', T)
-        ctx.observe('z', row['s']['z'])
+        ctx.observe('z', run.zrow(row))
     ctx.claim('C01.rows', AND(rows), sig='rows', info=describe)
     if cfg.get('lists'):
         # every update is applied as it was returned: the final list is as
